@@ -13,7 +13,8 @@ RULE = ('actions: all 16x16 pairs in each support class of family A and the '
         'post-fixpoints); attractor(inside) vs. the documented recurrence; '
         'ee_image vs. explicit successors; descendants: inside constrain, '
         'closed under constrained successors, between constrained and '
-        'unconstrained reachability. non-trivial = CPre of some set is '
+        'unconstrained reachability; every (E, S) also with the four modes '
+        'exercised one after the other in one reused automaton. non-trivial = CPre of some set is '
         'neither empty nor full; distinct = (E, S, mode, back end)')
 ASSUMPTIONS = ['dd trusted', 'state sets are built from explicit points '
                'with dd.cube, not through the parser']
@@ -49,16 +50,25 @@ def cases(shard):
                          P=[], G=[], moore=moore, plus_one=plus_one,
                          tier=shard['tier'], seed=shard['seed'])
                 yield c
+            k = (s + shard['E']) % 4
+            c = dict(c)
+            c['mode_seq'] = [list(m) for m in fam.MODES[k:] + fam.MODES[:k]]
+            yield c
     else:
         sh = fam.B_SHAPES[shard['fam']]
-        for s in sh['S']:
+        for si, s in enumerate(sh['S']):
             for moore, plus_one in fam.MODES:
-                yield dict(
+                c = dict(
                     fam=shard['fam'], backend=shard['backend'],
                     env=sh['env'], sys=sh['sys'], const=sh['const'],
                     E=['expr', sh['E'][shard['E']]], S=['expr', s],
                     P=[], G=[], moore=moore, plus_one=plus_one,
                     tier=shard['tier'], seed=shard['seed'])
+                yield c
+            k = (si + shard['E']) % 4
+            c = dict(c)
+            c['mode_seq'] = [list(m) for m in fam.MODES[k:] + fam.MODES[:k]]
+            yield c
 
 
 def _sets(case, gm, aut):
@@ -94,9 +104,20 @@ def run_case(case, acc):
         acc.evals += max(after - before, 1)
 
 
-def _run_case(case, acc):
+def _run_case(case, acc, aut=None):
     from omega.symbolic import fixpoint as fx
-    aut = fam.build_game(case)
+    if 'mode_seq' in case:
+        # all four modes one after the other in ONE automaton
+        aut = fam.build_game(case)
+        for moore, plus_one in case['mode_seq']:
+            aut.moore, aut.plus_one = bool(moore), bool(plus_one)
+            c = dict(case, moore=moore, plus_one=plus_one)
+            c.pop('mode_seq')
+            c['reused_automaton'] = True
+            _run_case(c, acc, aut)
+        return
+    if aut is None:
+        aut = fam.build_game(case)
     aut.build()
     gm = fam.GameModel(aut, case)
     E, S = aut.action['env'], aut.action['sys']
